@@ -197,6 +197,8 @@ class Translator:
                 finally:
                     self.depth -= 1
             src = ast.unparse(n.func)
+            if src == "bool" and len(n.args) == 1 and not n.keywords and isinstance(n.args[0], (ast.Compare, ast.BoolOp)):
+                return self.bexpr(n.args[0], env)  # bool() of a comparison is the comparison
             if src == "Power.zero" and not n.args:
                 return "(0 : Rat)"
             if src in ("max", "min") and len(n.args) == 2:
